@@ -559,7 +559,7 @@ func TestC02(t *testing.T) {
 	<-binDone
 	for _, driver := range vlib.Drivers() {
 		driver := driver
-		parallelCases(vlib.Scale(12, 300), 4, func(i int) { contractEconomy(ev, "C02", driver, i) })
+		parallelCases(vlib.Scale(12, 60), 4, func(i int) { contractEconomy(ev, "C02", driver, i) })
 	}
 	finish(t, ev)
 }
